@@ -56,7 +56,9 @@ pub fn relativize_path_in_diff_stat_line(
     let relative_path = relative_path.to_str()?;
     let formatted_path = match (
         config.hyperlinks,
-        utils::path::absolute_path(path_relative_to_repo_root, config),
+        // absolute_path() resolves relative to the user's cwd when paths are being
+        // relativized (which is the case here): give it the relativized path.
+        utils::path::absolute_path(relative_path, config),
     ) {
         (true, Some(absolute_path)) => features::hyperlinks::format_osc8_file_hyperlink(
             absolute_path,
